@@ -446,6 +446,40 @@ CAMPAIGNS['C16'].append(camp(
     'arguments) while rich values are persisted over 3-6 builds: what a '
     'later build serves must equal what the function originally returned',
     post='tag_all:C16', weight=0.8))
+CAMPAIGNS['C01'].append(camp(
+    'c01-edits', 'C01', dict(BYVALUE_HEAVY, p_mutate_step=0.3, p_stepargs=0.5,
+                             query_kinds=gen.DEFAULT['query_kinds']),
+    'generic programs whose functions edit in place what they received '
+    '(list / dict arguments) and what they got back, over 3-6 builds with '
+    'external changes; call sites whose arguments change from build to '
+    'build, also between a container and its edited form', weight=0.6))
+CAMPAIGNS['C03'].append(
+    camp('c03-threads-crash', 'threads', {'p_foreign': 0.9, 'p_fail': 0.15},
+         '2-4 simulated threads overwrite foreign files at their targets '
+         '(each moves one aside concurrently), the last build is crashed at '
+         'every raise opportunity: every foreign file is back afterwards',
+         mode='crash-sweep', nontrivial=nt_threads, chunk=4,
+         fault_step='lastbuild', post='tag_all:C03', weight=0.6,
+         sweep_max={'quick': 10, 'thorough': None}, follow=1))
+DEP_RULE = ('threads of one build whose operations depend on each other, '
+            'ordered by user-level events: one thread builds a file and '
+            'signals, another waits and then reads / lists it (directly or in '
+            'a subbuild); model-free oracle: no deadlock or spurious '
+            'exception, every key performed once, the following unchanged '
+            'sequential rebuild re-executes nothing, clean removes everything')
+CAMPAIGNS['C09'].append(
+    camp('c09-dependent', 'dep', {}, DEP_RULE, nontrivial=nt_threads,
+         post='tag_all:C09', weight=0.6))
+CAMPAIGNS['C05'].append(
+    camp('c05-threads-dependent', 'dep', {}, DEP_RULE, nontrivial=nt_threads,
+         post='tag_all:C05', weight=0.4))
+CAMPAIGNS['C12'].append(
+    camp('c12-threads', 'threads', {'p_fail': 0.35, 'n_threads': (2, 3)},
+         'clean after builds in which 2-3 simulated threads created shared '
+         'new directory chains (two and more missing levels, some outputs '
+         'failing): every directory the build created is recorded by exactly '
+         'one claim and removed by clean', nontrivial=nt_threads,
+         post='tag_all:C12', weight=0.6))
 RACE_RULE = ('a key (build_file path / subbuild name+arguments) performed '
              'directly by one thread while another thread reuses or '
              're-executes a cached subtree (depth 1-2) that contains it; '
@@ -732,7 +766,7 @@ def apply_post(sc, post):
 def run_case(camp, seed, tier='quick', prop=None):
     params = camp.get('params')
     if tier == 'thorough' and seed % 2 and isinstance(params, dict) and \
-            camp['profile'] not in ('threads', 'stragglers', 'wide', 'race'):
+            camp['profile'] not in ('threads', 'stragglers', 'wide', 'race', 'dep'):
         # deeper bounds for every second case of the thorough tier
         lo, hi = params.get('n_steps', gen.DEFAULT['n_steps'])
         plo, phi = params.get('n_paths', gen.DEFAULT['n_paths'])
